@@ -179,6 +179,11 @@ func (c *Canon) of(v ssa.Value) string {
 					return c.Of(v)
 				}
 			case *ssa.Global:
+				if c.P != nil {
+					if s, ok := c.P.GlobalConst(a); ok {
+						return s
+					}
+				}
 				return shortPkg(a.Pkg.Pkg.Path()) + "." + a.Name()
 			case *ssa.FieldAddr:
 				return c.fieldOf(a.X, a.Field)
